@@ -622,6 +622,75 @@ def build_gated(comp: str, wrap: str, dtype_name: str) -> tuple[Callable, list]:
     return f, [jax.ShapeDtypeStruct((2, 6), dtype)]
 
 
+# ---- layout chains (kind "layout"): a NON-symmetric transpose pair (NHWC<->NCHW) or a reshape pair around a
+#      chain of 1..3 operators drawn from the optimizer's LIVE op sets (so that new members are exercised)
+
+JAX_OF_ONNX: dict[str, Callable] = {
+    "Exp": lambda x: jnp.exp(x * 0.1), "Log": lambda x: jnp.log(jnp.abs(x) + 1.0),
+    "Sqrt": lambda x: jnp.sqrt(jnp.abs(x) + 1.0), "Abs": jnp.abs, "Neg": lambda x: -x,
+    "Elu": jax.nn.elu, "Gelu": lambda x: jax.nn.gelu(x, approximate=False), "Relu": jax.nn.relu,
+    "Sigmoid": jax.nn.sigmoid, "Swish": jax.nn.silu, "Tanh": jnp.tanh,
+    "LeakyRelu": lambda x: jax.nn.leaky_relu(x, 0.1), "Identity": lambda x: x,
+    "Cast": lambda x: x.astype(jnp.int32).astype(x.dtype),
+    "Not": lambda x: jnp.where(~(x > 0), x, x * 0.5),
+    "Max": lambda x: jnp.maximum(x, 0.5), "Min": lambda x: jnp.minimum(x, 0.5),
+    "Clip": lambda x: jnp.clip(x, -0.5, 0.5), "Add": lambda x: x + 1.5, "Mul": lambda x: x * 1.5,
+    "Sub": lambda x: x - 0.25, "Div": lambda x: x / 3.0,
+}
+
+
+def live_layout_ops() -> tuple[list[str], list[str]]:
+    """(operators of the optimizer's live op sets that have a JAX counterpart here, those without)"""
+    import jax2onnx.converter.ir_optimizations as opt
+    live = set()
+    for nm in ("ALLOWED_ELEMWISE", "ELEMENTWISE_UNARY_OPS", "UNARY_DATAFLOW_OPS", "ELEMENTWISE_BINARY_OPS"):
+        live |= set(getattr(opt, nm, set()))
+    return sorted(live & set(JAX_OF_ONNX)), sorted(live - set(JAX_OF_ONNX))
+
+
+def build_layout(pair: str, ops: list, sym: bool) -> tuple[Callable, list]:
+    fs = [JAX_OF_ONNX[o] for o in ops]
+
+    def chain(t):
+        for f in fs:
+            t = f(t)
+        return t
+
+    if pair == "transpose":
+        def f(x):
+            t = jnp.transpose(x, (0, 3, 1, 2))
+            return jnp.transpose(chain(t), (0, 2, 3, 1))
+    elif pair == "transpose_out":          # the value after the pair is used again
+        def f(x):
+            t = jnp.transpose(x, (0, 3, 1, 2))
+            y = jnp.transpose(chain(t), (0, 2, 3, 1))
+            return y, y + x
+    elif pair == "reshape":
+        def f(x):
+            t = x.reshape((x.shape[0], -1))
+            return chain(t).reshape(x.shape)
+    elif pair == "reshape_out":
+        def f(x):
+            t = x.reshape((x.shape[0] * 3, -1))
+            y = chain(t).reshape(x.shape)
+            return y * 2.0, y
+    else:
+        raise ValueError(pair)
+    return f, [("B" if sym else 2, 3, 4, 5)]
+
+
+LAYOUT_PAIRS = ["transpose", "transpose_out", "reshape", "reshape_out"]
+
+
+def random_layout(rng: common.Rng) -> dict:
+    ops, _ = live_layout_ops()
+    chain = [rng.choice(ops) for _ in range(rng.randint(1, 3))]
+    pair = rng.choice(LAYOUT_PAIRS)
+    sym = rng.chance(0.4)
+    return {"kind": "layout", "name": f"layout_{pair}_{'_'.join(chain)}{'_B' if sym else ''}", "pair": pair,
+            "ops": chain, "sym": sym}
+
+
 # fixed nested tree programs that are always part of the core set
 FIXED_TREES: dict[str, list] = {
     "fori_in_fori": ["seq", [["fori", 2, ["seq", [["fori", 3, ["seq", [["un", "sin"], ["un", "mul2"]]]],
@@ -674,6 +743,9 @@ def prog_fn_and_shapes(desc: dict) -> tuple[Callable, list]:
         return build_tree(desc["tree"]), [tuple(desc.get("shape", ("B", 3)))]
     if k == "named":
         fn, shapes = NAMED[desc["name"]]
+        return fn, [tuple(s) for s in shapes]
+    if k == "layout":
+        fn, shapes = build_layout(desc["pair"], list(desc["ops"]), bool(desc.get("sym")))
         return fn, [tuple(s) for s in shapes]
     if k == "gated":
         return build_gated(desc["comp"], desc["wrap"], desc.get("dtype", "f32"))
